@@ -388,4 +388,22 @@ def invoke (s : State) (e : Entry) (c : Nat) (name : Name) (k : Kind) : Outcome 
   | .ret => processEventReturn s c (findNum s name k)
   | .proc => processEvent s c (findNum s name k)
 
+/-- The script command `commanddelay <seconds> <command>` on an instance of class `c`
+    (`Listener::CommandDelay`, `Listener::PostEventInternal`, then the queue's `ProcessEvent`):
+    the number of the posted event (0: nothing was posted) and what its delivery does. -/
+def commandDelay (s : State) (c : Nat) (name : Name) : Nat × Option Outcome :=
+  let idx := constName s name
+  -- `const eventInfo_t* const eventInfo = eventSystem.FindEventInfo(eventName); if (eventInfo)`
+  if ¬ findEventInfoOk s idx then (0, none) else
+  let num :=
+    if infoNum s idx .normal ≠ 0 then infoNum s idx .normal
+    else if infoNum s idx .ret ≠ 0 then infoNum s idx .ret
+    else if infoNum s idx .setter ≠ 0 then infoNum s idx .setter
+    else infoNum s idx .getter
+  -- `PostEventInternal`: `if (!ev->Num() || !classinfo().GetResponse(ev->Num())) { delete ev; return; }`
+  if num = 0 then (0, none) else
+  match getResponse s c num with
+  | none => (0, none)
+  | some _ => (num, some (processEvent s c num))
+
 end Morfuse.Dispatch
